@@ -533,6 +533,8 @@ def expr_of_ast(node, var='e'):
     f = lambda n: expr_of_ast(n, var)
     if isinstance(node, _ast.Attribute) and isinstance(node.value, _ast.Name) and node.value.id == var:
         return ('attr', node.attr)
+    if isinstance(node, _ast.Attribute) and isinstance(node.value, _ast.Attribute) and isinstance(node.value.value, _ast.Name) and node.value.value.id == var:
+        return ('attr', '%s.%s' % (node.value.attr, node.attr))      # one-hop navigation `e.parent.nm` (join stream; attribute named 'parent.nm' as in `src`)
     if isinstance(node, _ast.Name): return ('param', node.id)
     if isinstance(node, _ast.Constant):
         v = node.value
